@@ -247,11 +247,10 @@ func (c *ctx) poolMethod(w *poolWalk, name string) *ast.FuncDecl {
 	return fd
 }
 
-func (c *ctx) sshpoolFacts() {
-	c.lean.WriteString("\n/-! remotessh.go: the session pool of RemoteSSH (C14, C03) -/\n")
+// sshpoolFields finds the pool (the one chan field) and the counter (the one int field) of RemoteSSH by type
+func (c *ctx) sshpoolFields() *poolWalk {
 	w := &poolWalk{}
 	chans, ints := 0, 0
-	var users []string
 	for _, f := range c.files {
 		walk(f, func(n ast.Node) bool {
 			ts, ok := n.(*ast.TypeSpec)
@@ -277,6 +276,13 @@ func (c *ctx) sshpoolFacts() {
 	if chans != 1 || ints != 1 { // which field is the pool / the counter would be a guess
 		w.pool, w.cnt = "", ""
 	}
+	return w
+}
+
+func (c *ctx) sshpoolFacts() {
+	c.lean.WriteString("\n/-! remotessh.go: the session pool of RemoteSSH (C14, C03) -/\n")
+	w := c.sshpoolFields()
+	var users []string
 	emit := func(name, doc string, l []string, found bool) {
 		if !found {
 			l = nil
